@@ -282,3 +282,23 @@ Proof.
         unfold chk. destruct (in_rangeb _ _); cbn [negb enc_out]; unfold enc;
           rewrite ?(wrap_small (x * y)) by lia; reflexivity.
 Qed.
+
+(* codegen_venom clamp_basetype on a word in %1 *)
+Theorem vclamp_basetype_iff T w : ty_ok T -> uword w ->
+  vrun [("%1"%string, w)] (v_clamp_basetype T)
+  = if in_rangeb T (sval (nsigned T) w) then Val w else Revert.
+Proof.
+  destruct T as [k s d]. intros [Hk _] Hw. cbn [nbytes nsigned] in *. unfold v_clamp_basetype. cbn [nbytes nsigned].
+  destruct (Z.ltb_spec k 32).
+  - destruct s; vstep.
+    + rewrite !vclamp_s_val by (try lia; exact Hw). rewrite b2z_eq0. cbn [sval].
+      destruct (in_rangeb _ _); reflexivity.
+    + rewrite !vclamp_u_val by (try lia; exact Hw). rewrite b2z_eq0. cbn [sval].
+      destruct (in_rangeb _ _); reflexivity.
+  - assert (k = 32) by lia. subst k. vstep.
+    replace (in_rangeb _ _) with true; [reflexivity|]. symmetry. apply in_rangeb_iff. unfold in_range.
+    pose proof W_val. pose proof HALF_val.
+    destruct s; cbn [sval]; [rewrite ty_lo_s, ty_hi_s, Hb_32 | rewrite ty_lo_u, ty_hi_u, Hb_32 by lia].
+    + pose proof (ts_range w Hw). unfold sword, MINS, MAXS in *. lia.
+    + unfold uword in Hw. lia.
+Qed.
